@@ -200,11 +200,13 @@ def r2_check_before_write(rep, ctx):
         return False
 
     ok_iter = False
+    collectors = set()  # locals that gather the systems failing the check
     for lp in loops:
         t = sres.term(lp.iter)
         direct = all(whole_registry(a) for a in alternatives(t))
         if direct and tstores and scfg.dominated_by_node(scfg.node_of(tstores[0]), lambda k, a, lp=lp: a is lp):
-            checks_ = [c for c in own_nodes(lp) if isinstance(c, ast.Call) and isinstance(c.func, ast.Attribute) and c.func.attr == "_CheckUnitSystemMapping"]
+            checks_ = [c for c in own_nodes(lp) if isinstance(c, ast.Call) and sres.term(c.func) == ("field", "_CheckUnitSystemMapping")]
+            collectors |= {c.func.value.id for c in own_nodes(lp) if isinstance(c, ast.Call) and isinstance(c.func, ast.Attribute) and c.func.attr in ("append", "add") and isinstance(c.func.value, ast.Name)}
             H = scfg.node_of(lp)
             every = bool(checks_) and H not in scfg.reach(H, avoid={scfg.node_of(c) for c in checks_}, start_edges={"T"})
             ok_iter = every
@@ -214,16 +216,18 @@ def r2_check_before_write(rep, ctx):
             if isinstance(st_, ast.Assign) and isinstance(st_.value, (ast.ListComp, ast.SetComp, ast.GeneratorExp)) and len(st_.value.generators) == 1:
                 g = st_.value.generators[0]
                 t = sres.term(g.iter)
-                filt = any(isinstance(c, ast.Call) and isinstance(c.func, ast.Attribute) and c.func.attr == "_CheckUnitSystemMapping" for i_ in g.ifs for c in ast.walk(i_))
+                filt = any(isinstance(c, ast.Call) and sres.term(c.func) == ("field", "_CheckUnitSystemMapping") for i_ in g.ifs for c in ast.walk(i_))
                 if all(whole_registry(a) for a in alternatives(t)) and filt and scfg.dominated_by_node(scfg.node_of(tstores[0]), lambda k, a, st_=st_: a is st_):
                     ok_iter = True
+                    collectors |= {t_.id for t_ in st_.targets if isinstance(t_, ast.Name)}
     rep.check(ok_iter, "C17.R2", "SetTemplate:every-system-checked", "the template is stored only after a loop over all registered systems checked each of them against it",
               "the new template can be stored without checking every registered system against it (the loop does not iterate the registry itself on every path, or skips systems): a template that a registered system does not cover is accepted",
               node=tstores[0] if tstores else None, fn=st_fn)
     inv_ok = False
     for nid in scfg.nodes("test"):
         e = scfg.ast[nid]
-        if isinstance(e, ast.Name) and e.id == "invalid_unit_systems":
+        if isinstance(e, ast.Name) and (e.id in collectors or any(isinstance(st_, ast.Assign) and any(isinstance(t_, ast.Name) and t_.id in collectors for t_ in st_.targets) for st_, _ in sres.origins(e) if st_ is not None)
+                                        or any(isinstance(x, ast.Name) and x.id in collectors for ch in [sres.origins(e)] for ch2 in sres.origin_chains for st_ in ch2 if st_ is not None for x in ast.walk(st_.value))):
             inv_ok = scfg.must_raise_from([(nid, "T")]) and tstores and (nid, "F") in scfg.dominating_edges(scfg.node_of(tstores[0]))
     rep.check(bool(inv_ok), "C17.R2", "SetTemplate:mismatch-must-raise", "a non-covering system must-raise InvalidTemplateError before the template is stored", "a non-covering registered system does not prevent the template from being stored", fn=st_fn)
     chk = m.method(M, "_CheckUnitSystemMapping")
@@ -241,6 +245,10 @@ def r2_check_before_write(rep, ctx):
             recv_params = {s[1] for s in walk(t[1][1]) if s[0] == "param"}
             arg_params = {s[1] for a in t[2] for s in walk(a) if s[0] == "param"}
             ok = recv_params == {2} and arg_params == {1}
+        elif t[0] == "op" and t[1] in ("cmp:GtE", "cmp:LtE") and len(t[2]) == 2 and all(x[0] == "call" and x[1] in (("name", "set"), ("name", "frozenset")) for x in t[2]):
+            # set(mapping) >= set(required)   /   set(required) <= set(mapping)
+            big, small = (t[2][0], t[2][1]) if t[1] == "cmp:GtE" else (t[2][1], t[2][0])
+            ok = {s[1] for s in walk(big) if s[0] == "param"} == {1} and {s[1] for s in walk(small) if s[0] == "param"} == {2}
     rep.check(ok, "C17.R2", "_CheckUnitSystemMapping:direction", "coverage means: the mapping's categories are a superset of the required categories",
               "_CheckUnitSystemMapping does not test mapping-categories ⊇ required-categories", fn=chk)
 
@@ -322,9 +330,17 @@ def r3_pairing(rep, ctx):
     for c in own_nodes(fn.node):
         if isinstance(c, ast.Call) and isinstance(c.func, ast.Attribute) and c.func.attr == "on_current":
             t = res.term(c.args[0]) if c.args else ("const", None)
-            facts = cfg.facts_at(cfg.node_of(c))
-            in_none_arm = any((_is_current_test(e, res) == "T" and not v) or (_is_current_test(e, res) == "F" and v) for e, v in facts)
-            okarg = (t in CURRENT_TERMS and not in_none_arm) or (in_none_arm and t[0] == "field" and "null" in t[1])
+
+            def none_arm(node):
+                return any((_is_current_test(e, res) == "T" and not v) or (_is_current_test(e, res) == "F" and v) for e, v in cfg.facts_at(cfg.node_of(node)))
+
+            # each value the argument can hold is judged where it is chosen (its defining statement, or the call)
+            okarg = bool(c.args)
+            for st_, t_ in (res.origins(c.args[0]) if c.args else []):
+                site = st_ if st_ is not None else c
+                for a_ in alternatives(t_):
+                    in_none_arm = none_arm(site) or none_arm(c)
+                    okarg = okarg and ((a_ in CURRENT_TERMS and not in_none_arm) or (in_none_arm and a_[0] == "field" and "null" in a_[1]))
             rep.check(okarg, "C17.R3", "SetCurrent:on_current-arg:%s" % norm(ast.unparse(c)), "listeners receive the new current system (the null system when None)",
                       "on_current is called with %s" % show(t), node=c, fn=fn)
 
